@@ -218,6 +218,17 @@ theorem chainPairs_head_fst (ids : List Nat) (h : chainPairs ids ≠ []) :
     | nil => simp [chainPairs] at h
     | cons b r' => simp [chainPairs]
 
+theorem consec_reach (l : List Rat) (δ : Rat) (ids : List Nat)
+    (hids : ids = 0 :: reachGo δ l 1 0 ∨ ids = reachGo δ l 1 0) (i j : Nat)
+    (h : (i, j) ∈ chainPairs ids) :
+    i < j ∧ j ≤ l.length ∧ δ ≤ span l i j ∧ ∀ m, i < m → m < j → span l i m < δ := by
+  obtain ⟨hch, hb, _⟩ := ids_spec l δ ids hids
+  obtain ⟨k, hk, hp⟩ := mem_chainPairs.mp h
+  simp only [Prod.mk.injEq] at hp
+  obtain ⟨rfl, rfl⟩ := hp
+  obtain ⟨h1, h2, h3⟩ := isChain_getElem hch k hk
+  exact ⟨h1, hb _ (List.getElem_mem _), h2, h3⟩
+
 /-! ### all-pairs path selector -/
 
 theorem mem_pathAll {acc : List Rat} {δ tol : Rat} {i j : Nat} :
